@@ -108,8 +108,10 @@ fn test_runner(args: &[String]) -> i32 {
             cfg.expected_pack_result(PackResult::Failure);
         }
         if c["preprocessor"] == true {
-            cfg.app_dir_preprocessor(|p| {
-                std::fs::write(p.join("preprocessed.txt"), b"added by the preprocessor").unwrap();
+            let tag = c["pre_tag"].as_u64().unwrap_or(0);
+            cfg.app_dir_preprocessor(move |p| {
+                let name = if tag == 0 { "preprocessed.txt".to_string() } else { format!("preprocessed-{tag}.txt") };
+                std::fs::write(p.join(name), b"added by the preprocessor").unwrap();
                 let _ = std::fs::remove_file(p.join("remove-me.txt"));
             });
         }
